@@ -500,6 +500,45 @@ func burstUDP(qsize, n int) NestedRec {
 	return r
 }
 
+// refusedTCP: "never dropped while the connection is open": the application's request monitor refuses one message (it is not
+// dispatched, by design); the messages that arrive behind it IN THE SAME READ are dispatched like any other.
+func refusedTCP(qsize int) NestedRec {
+	r := NestedRec{Op: "nested", Transport: "tcp", How: "refused", Depth: 0, QSize: qsize, Dispatch: []disp{}, Log: []string{}, Ev: []int{}}
+	cnt := &counts{n: map[string]int{}}
+	t := conns.NewTCP(func(cfg *tcpclient.Config) {
+		cfg.ReceivedMessageQueueSize = qsize
+		cfg.Handler = func(w *responsewriter.ResponseWriter[*tcpclient.Conn], req *pool.Message) {
+			cnt.inc(req.Token())
+			_ = w.SetResponse(codes.Content, message.TextPlain, bytes.NewReader([]byte("plain")))
+		}
+	}, tcpclient.WithRequestMonitor(func(_ *tcpclient.Conn, m *pool.Message) (bool, error) {
+		return len(m.Token()) == 1 && m.Token()[0] == 0xDD, nil
+	}))
+	defer t.Close()
+	one := append([]byte{}, conns.Frame(int(codes.GET), []byte{0xDD}, message.Options{{ID: message.URIPath, Value: []byte("refused")}}, nil)...)
+	for k := 1; k <= 3; k++ {
+		one = append(one, conns.Frame(int(codes.GET), []byte{0xB0, byte(k)}, message.Options{{ID: message.URIPath, Value: []byte("plain")}}, nil)...)
+	}
+	t.Stream.Feed(one) // one read
+	answered := func() int {
+		fs, _ := conns.Frames(t.Stream.Written(0))
+		n := 0
+		for _, f := range fs {
+			if f.Code == int(codes.Content) && len(f.Token) == 2 && f.Token[0] == 0xB0 {
+				n++
+			}
+		}
+		return n
+	}
+	if hooks.WaitFor(wd, func() bool { return answered() == 3 }) {
+		r.Completed = true
+	} else {
+		r.Watchdog = true
+		r.Log = append(r.Log, "watchdog waiting for the answers to the three requests behind the refused one")
+	}
+	return finishNested(r, cnt)
+}
+
 // RunNested writes the nested-request records.
 func RunNested(out string) {
 	w := rec.Create(out)
@@ -511,6 +550,7 @@ func RunNested(out string) {
 	for k := 0; k < reps; k++ {
 		for _, q := range []int{0, 1, 16} {
 			w.Put(burstUDP(q, 400))
+			w.Put(refusedTCP(q))
 			w.Put(obsNested("tcp", q))
 			w.Put(obsNested("udp", q))
 			for d := 1; d <= 3; d++ {
